@@ -346,6 +346,13 @@ template <class T> struct TreeSim
         std::sort(cuts, cuts + 3);
         int cut_i = 3 - ncuts; if (cut_i < 0) cut_i = 0;
         bool const from_scratch = ((o.a[3] >> 3) & 1) != 0;
+        // documented entry point: "next: input starting node; if null, root node" - start (and optionally resume) at a seeded element
+        bool const start_at_node = ((o.a[3] >> 4) & 1) != 0, resume_at_node = ((o.a[3] >> 5) & 1) != 0;
+        auto pick_remaining = [&](uint64_t sel) -> Node * {
+            std::vector<int> rem; for (int id : in) if (!yielded[(size_t)id]) rem.push_back(id);
+            return rem.empty() ? nullptr : nd(rem[(size_t)(sel % rem.size())]);
+        };
+        if (start_at_node && n) { next = pick_remaining((uint64_t)(o.a[0] < 0 ? -o.a[0] : o.a[0]) / 7); c.st.add("probe.tear_started_at_arbitrary_node"); }
         c.st.add(ncuts ? "fault.tear_interrupted" : "probe.tear_uninterrupted", ncuts ? (uint64_t)ncuts : 1);
         for (;;)
         {
@@ -354,7 +361,9 @@ template <class T> struct TreeSim
             {
                 ++cut_i;
                 if (iter_prop && !observe_remaining(yielded, n - done, name.c_str())) return false;
-                if (from_scratch) { next = nullptr; c.st.add("probe.tear_resumed_from_scratch"); } else c.st.add("probe.tear_resumed_with_cursor");
+                if (resume_at_node && done < n) { next = pick_remaining((uint64_t)(o.a[1] < 0 ? -o.a[1] : o.a[1]) / 3 + done); c.st.add("probe.tear_resumed_at_arbitrary_node"); }
+                else if (from_scratch) { next = nullptr; c.st.add("probe.tear_resumed_from_scratch"); }
+                else c.st.add("probe.tear_resumed_with_cursor");
             }
             c.site(name.c_str());
             Node *cur = T::tear(&root, &next);
@@ -514,7 +523,7 @@ template <class T> struct TreeSim
         if (c.ok() && !precond_failed && iter_prop)
         {
             c.opi = (int)p.ops.size();
-            if (do_iterate()) { Op t; t.kind = T_TEAR; t.a[0] = (int64_t)(p.seed % 97); t.a[1] = (int64_t)(p.seed % 89); t.a[2] = (int64_t)(p.seed % 83); t.a[3] = (int64_t)(p.seed % 16); do_tear(t); }
+            if (do_iterate()) { Op t; t.kind = T_TEAR; t.a[0] = (int64_t)(p.seed % 97); t.a[1] = (int64_t)(p.seed % 89); t.a[2] = (int64_t)(p.seed % 83); t.a[3] = (int64_t)(p.seed % 64); do_tear(t); }
         }
     }
 };
